@@ -5,7 +5,7 @@
    Abstraction.  Frames are numbers.  What the code can see of the interpreter state is a
    [world]: the f_back chain of the running greenlet starting at the frame that called
    get_true_caller (each frame with the __name__ of its globals and whether its code is the
-   functools.singledispatch wrapper), the truthiness of greenlet.getcurrent().parent, the
+   functools.singledispatch wrapper), the
    f_back chains hanging off gr_frame of the parent, grandparent, ..., the entries of
    sys._current_frames() in order, and any further f_back chains (suspended greenlets,
    generators, ...).  A chain is a list, innermost frame first; f_back = "next element". *)
@@ -78,8 +78,9 @@ Record cframe := { cf_id : nat; cf_mod : string; cf_sd : bool }.
 
 Record world := {
   w_cur : list cframe;               (* running chain from the caller of get_true_caller outward *)
-  w_parent_active : bool;            (* bool(greenlet.getcurrent().parent) *)
-  w_parents : list (list nat);       (* chains from gr_frame of .parent, .parent.parent, ... *)
+  w_parents : list (list nat);       (* chains from gr_frame of .parent, .parent.parent, ...
+                                        (an unstarted / dead parent contributes []); empty iff
+                                        greenlet.getcurrent().parent is None *)
   w_threads : list (bool * list nat);(* sys._current_frames().items(): (is this thread, chain) *)
   w_chains : list (list nat)         (* every other f_back chain *)
 }.
@@ -169,16 +170,14 @@ Definition greenlet_branch (w : world) (outer inner : option nat) : list nat :=
       end
   end.
 
-(* the loop over sys._current_frames(); the loop variable is [inner_frame] itself, so after
-   the loop the local is no longer None: the second component tracks `inner_frame is None` *)
-Fixpoint search_threads (outer : option nat) (ths : list (bool * list nat)) (inner_none : bool)
-  : list nat * bool :=
+(* the loop over sys._current_frames(): first other thread on whose stack outer is found *)
+Fixpoint search_threads (outer : option nat) (ths : list (bool * list nat)) : list nat :=
   match ths with
-  | [] => ([], inner_none)
+  | [] => []
   | (me, ch) :: r =>
-      if me then search_threads outer r false
+      if me then search_threads outer r
       else let fr := try_chain outer ch in
-           if is_nil fr then search_threads outer r false else (fr, false)
+           if is_nil fr then search_threads outer r else fr
   end.
 
 Definition apply_limit (frames : list nat) (limit : option Z) (inner_none outer_some : bool) : list nat :=
@@ -193,12 +192,15 @@ Definition apply_limit (frames : list nat) (limit : option Z) (inner_none outer_
 
 Definition is_some {A} (o : option A) : bool := match o with Some _ => true | None => false end.
 
+(* `greenlet_getcurrent().parent is not None` *)
+Definition has_parent (w : world) : bool := negb (is_nil (w_parents w)).
+
 Definition unwrap_stackslice (w : world) (s : sspec) : sres :=
   let outer := s_outer s in
   let inner := s_inner s in
   let tc := true_caller w in
-  if w_parent_active w && negb (is_some tc) then SAssert else
-  let frames1 := if w_parent_active w then greenlet_branch w outer inner else [] in
+  if has_parent w && negb (is_some tc) then SAssert else
+  let frames1 := if has_parent w then greenlet_branch w outer inner else [] in
   let start : option nat := match inner with Some i => Some i | None => tc end in
   let frames2 : option (list nat) :=
     if is_nil frames1
@@ -210,13 +212,13 @@ Definition unwrap_stackslice (w : world) (s : sspec) : sres :=
   match frames2 with
   | None => SAssert
   | Some frames2 =>
-      let '(frames3, inner_none) :=
+      let frames3 :=
         if is_nil frames2 && negb (is_some inner)
-        then search_threads outer (w_threads w) true
-        else (frames2, negb (is_some inner)) in
+        then search_threads outer (w_threads w)
+        else frames2 in
       if is_nil frames3 then
         match outer with Some o => SError [o] | None => SAssert end
-      else SFrames (apply_limit frames3 (s_limit s) inner_none (is_some outer))
+      else SFrames (apply_limit frames3 (s_limit s) (negb (is_some inner)) (is_some outer))
   end.
 
 (* ------------------------------------------------------------------ the three entry points *)
